@@ -160,7 +160,21 @@ func scenC02(r *Run) {
 			lie["summary"] = "<p>FORGED BIO</p>"
 		}
 		seq++
-		switch t.Draw(9) {
+		switch t.Draw(10) {
+		case 9:
+			// the id itself is an open redirect on the victim's host: re-fetching it lands on the
+			// attacker, who serves a body claiming exactly that id
+			rid := "https://" + H1 + "/redirect?to=evil"
+			l2 := Doc{}
+			for k, val := range lie {
+				l2[k] = val
+			}
+			l2["id"] = rid
+			serve("https://"+E+"/forged/viaopen", l2)
+			if t.Chance(1, 2) {
+				return Doc{"id": rid}, "stub-whose-id-is-victim-open-redirect"
+			}
+			return l2, "embedded-whose-id-is-victim-open-redirect"
 		case 0:
 			return lie, "embedded-with-victim-id"
 		case 1:
